@@ -74,8 +74,9 @@ inline std::vector<GGroup> buildGroups(const Content& c, const Layout& l) {
         if (!(c.optParams == "nolabels" && c.nChans == 0))
         {   int n = std::max(0, c.nChans + c.alabelsDelta); std::vector<std::string> v; for (int i = 0; i < n; ++i) v.push_back(chLabel(i)); A.params.push_back(GParam::strs("LABELS", 4, {n}, v)); }
         A.params.push_back(GParam::floats("GEN_SCALE", {}, {f2b(1.0f)}));
-        if (c.optParams != "minimal") { std::vector<uint32_t> v; for (int i = 0; i < c.nChans; ++i) v.push_back(f2b(1.0f + (float)i)); A.params.push_back(GParam::floats("SCALE", {c.nChans}, v)); }
-        if (c.optParams != "minimal") { std::vector<int> v; for (int i = 0; i < c.nChans; ++i) v.push_back(-i * 7); A.params.push_back(GParam::ints("OFFSET", {c.nChans}, v)); }
+        if (c.optParams == "emptyscale") { A.params.push_back(GParam::floats("SCALE", {0}, {})); A.params.push_back(GParam::ints("OFFSET", {0}, {})); }   // present but without values (a float file never needs them)
+        else if (c.optParams != "minimal") { { std::vector<uint32_t> v; for (int i = 0; i < c.nChans; ++i) v.push_back(f2b(1.0f + (float)i)); A.params.push_back(GParam::floats("SCALE", {c.nChans}, v)); }
+            { std::vector<int> v; for (int i = 0; i < c.nChans; ++i) v.push_back(-i * 7); A.params.push_back(GParam::ints("OFFSET", {c.nChans}, v)); } }
         if (c.optParams != "minimal") { std::vector<std::string> v; for (int i = 0; i < c.nChans; ++i) v.push_back("V"); A.params.push_back(GParam::strs("UNITS", 4, {c.nChans}, v)); }
         if (c.optParams == "rich") { std::vector<std::string> v; for (int i = 0; i < c.nChans; ++i) v.push_back("chan " + std::to_string(i)); A.params.push_back(GParam::strs("DESCRIPTIONS", 7, {c.nChans}, v)); }
         A.params.push_back(GParam::floats("RATE", {}, {f2b(c.analogRate)}, true, D("analog rate")));
@@ -195,7 +196,7 @@ inline std::vector<Dim> dims(bool thorough) {
     d.push_back({"reserved", {"zero", "nonzero"}});
     d.push_back({"datastart", {"present", "absent"}});
     d.push_back({"padblocks", {"0", "1", "3"}});
-    d.push_back({"optparams", {"std", "minimal", "rich", "nolabels"}});   // nolabels: a file without points (channels) need not carry POINT:LABELS (ANALOG:LABELS)
+    d.push_back({"optparams", {"std", "minimal", "rich", "nolabels", "emptyscale"}});   // nolabels: a file without points (channels) need not carry POINT:LABELS (ANALOG:LABELS)
     return d;
 }
 using Choice = std::map<std::string, std::string>;
